@@ -834,6 +834,43 @@ func main() {
 		a.kill()
 		a.start()
 		observe(ps, "restart")
+	case "snapshot-twice":
+		// every member compacts its log, a node joins, a dataset is created, every member compacts again: what a member
+		// recovers from its SECOND snapshot (restart), and what a follower that was down meanwhile is sent, is the
+		// membership and the catalogue of that moment - not of the first snapshot
+		snapAll := func() {
+			for _, p := range ps {
+				if p.checkAlive() {
+					p.cmd.Process.Signal(syscall.SIGUSR1)
+				}
+			}
+			time.Sleep(1500 * time.Millisecond)
+			emit(event{"ev": "snapshotted"})
+		}
+		create(a, 2, 2)
+		observe(ps, "create")
+		snapAll()
+		c.kill()
+		d := mk(4, "127.0.0.1:"+a.port)
+		okd := d.start()
+		okv := 0
+		if okd {
+			okv = 1
+			ps = append(ps, d)
+		}
+		emit(event{"ev": "joined", "node": 4, "addr": ":" + d.port, "ok": okv})
+		observe(ps, "join")
+		create(b, 1, 2)
+		observe(ps, "create")
+		snapAll()
+		c.start()
+		observe(ps, "restart")
+		a.kill()
+		a.start()
+		observe(ps, "restart")
+		b.kill()
+		b.start()
+		observe(ps, "restart")
 	case "lagging":
 		// a follower is down while the catalogue changes and the others compact their logs: it catches
 		// up through a snapshot installed into the catalogue it rebuilt from its own (older) log
